@@ -123,7 +123,7 @@ func (r *runner) install() error {
 	changed := cur.key() != r.acceptedKey
 	r.acceptedKey = cur.key()
 	if r.window {
-		if r.fault == nil && changed {
+		if r.fault == nil && changed && r.lastChangeIntact {
 			// A configuration different from the previous one has been applied
 			// and every file was intact: it is in force.
 			r.window = false
@@ -202,14 +202,20 @@ func (r *runner) heal() error {
 
 // ---- concurrent phase ------------------------------------------------------------
 
-// par runs a set_rules call, the body of the updates loop and some queries as
-// concurrent tasks.
+// par runs some queries — and, if the phase has one, a set_rules call and the
+// body of the updates loop — as concurrent tasks.  A goroutine that one of the
+// queries starts to switch protection on again after the deadline of a pause
+// becomes a task of the phase.
 func (r *runner) par(op Op) error {
-	if !r.sc.DelayedLoop || len(op.Sub) < 2 {
+	var adminOp *Op
+	qs := op.Sub
+	if len(qs) > 0 && qs[0].Kind == "set_rules" {
+		adminOp, qs = &qs[0], qs[1:]
+	}
+	if (adminOp != nil && !r.sc.DelayedLoop) || len(qs) == 0 {
 		r.c.Probe("op_skipped_no_scheduler")
 		return nil
 	}
-	adminOp, qs := op.Sub[0], op.Sub[1:]
 	type flight struct {
 		op  Op
 		p   *dnsnode.Prepared
@@ -225,35 +231,47 @@ func (r *runner) par(op Op) error {
 	}
 	var adminErr error
 	adminDone := false
-	names := []string{"admin:set_rules", "updates_loop"}
-	fns := []func(){
-		func() {
-			defer func() { adminDone = true }()
-			if adminErr = r.api("POST", "/control/filtering/set_rules", map[string]any{"rules": adminOp.Rules}); adminErr == nil {
-				r.user = adminOp.Rules
-			}
-		},
-		// The updates loop handles requests as they arrive, as long as the admin
-		// call runs (its own goroutine blocks on the request channel; as a
-		// cooperative task it polls between scheduling points).
-		func() {
-			for {
-				done := adminDone
-				r.n.Filter.VerifDrainInitializer()
-				if done {
-					return
+	var names []string
+	var fns []func()
+	if adminOp != nil {
+		names = []string{"admin:set_rules", "updates_loop"}
+		fns = []func(){
+			func() {
+				defer func() { adminDone = true }()
+				if adminErr = r.api("POST", "/control/filtering/set_rules", map[string]any{"rules": adminOp.Rules}); adminErr == nil {
+					r.user = adminOp.Rules
 				}
-				sched.Yield()
-			}
-		},
+			},
+			// The updates loop handles requests as they arrive, as long as the admin
+			// call runs (its own goroutine blocks on the request channel; as a
+			// cooperative task it polls between scheduling points).
+			func() {
+				for {
+					done := adminDone
+					r.n.Filter.VerifDrainInitializer()
+					if done {
+						return
+					}
+					sched.Yield()
+				}
+			},
+		}
 	}
 	for _, f := range fl {
 		names = append(names, "query")
 		fns = append(fns, func() { f.rep = r.n.Handle(f.p) })
 	}
+	what := fmt.Sprintf("%d queries", len(fl))
+	if adminOp != nil {
+		what = "set_rules concurrent with " + what
+	}
 	upStart := r.up.Len()
 	now := time.Now()
 	prot := r.protAt(now)
+	if r.crossed && prot {
+		// The first requests after the deadline of a pause arrive together.
+		r.c.Probe("par_first_after_pause")
+	}
 	lat := r.up.Latency
 	r.up.Latency, r.up.OnExchange = 0, func() { sched.Yield() }
 	res := sched.Run(op.Seed, op.Pct, names, fns)
@@ -262,20 +280,30 @@ func (r *runner) par(op Op) error {
 	r.c.Probes["sched_switches"] += res.Switches
 	if res.Deadlock != "" {
 		r.abandon = true
-		return kernel.Violationf("deadlock: "+res.Deadlock, "set_rules concurrent with %d queries, schedule seed %d: every task waits for a lock:\n%s", len(fl), op.Seed, res.Detail)
+		return kernel.Violationf("deadlock: "+res.Deadlock, "%s, schedule seed %d: every task waits for a lock:\n%s", what, op.Seed, res.Detail)
 	}
 	if adminErr != nil {
 		return adminErr
 	}
-	r.n.Filter.VerifDrainInitializer()
+	if res.Spawned > 0 {
+		r.c.Probe("par_reenable_task")
+	}
+	if adminOp != nil {
+		r.n.Filter.VerifDrainInitializer()
+	}
 	kernel.Wait()
 	r.crossed = false
-	r.c.Fault("concurrent_rule_change")
-	r.c.Eventf("par set_rules with %d queries (steps %d)", len(fl), res.Steps)
-	// Each answer is judged by what the configuration before and the one after
-	// the call (and whatever else is in doubt) agree on.
-	if err := r.addCurrent(); err != nil {
-		return err
+	if adminOp != nil {
+		r.c.Fault("concurrent_rule_change")
+		r.c.Eventf("par set_rules with %d queries (steps %d)", len(fl), res.Steps)
+		// Each answer is judged by what the configuration before and the one after
+		// the call (and whatever else is in doubt) agree on.
+		if err := r.addCurrent(); err != nil {
+			return err
+		}
+	} else {
+		r.c.Fault("concurrent_queries")
+		r.c.Eventf("par %d queries (steps %d)", len(fl), res.Steps)
 	}
 	exch := r.up.Since(upStart)
 	used := make([]bool, len(exch))
@@ -292,19 +320,23 @@ func (r *runner) par(op Op) error {
 			return kernel.Violationf("forwarded-other-question", "concurrent phase: upstream was asked %s %s, which no client asked", e.Name, dns.Type(e.Qtype))
 		}
 	}
+	r.overlapRules = adminOp != nil
+	defer func() { r.overlapRules = false }()
 	for _, f := range fl {
 		r.c.Probe("par_query")
 		if err := r.judge(f.op, f.rep, prot, prot, false, -1); err != nil {
 			if v, ok := err.(*kernel.Violation); ok {
-				v.Msg = fmt.Sprintf("query concurrent with set_rules (schedule seed %d pct %d): %s", op.Seed, op.Pct, v.Msg)
+				v.Msg = fmt.Sprintf("concurrent phase, %s (schedule seed %d pct %d): %s", what, op.Seed, op.Pct, v.Msg)
 			}
 			return err
 		}
 	}
-	if err := r.install(); err != nil {
-		return err
+	if adminOp != nil {
+		if err := r.install(); err != nil {
+			return err
+		}
+		r.c.Fault("live_rule_change")
 	}
-	r.c.Fault("live_rule_change")
 	return nil
 }
 
